@@ -11,6 +11,11 @@ func checkC18(c *Ctx) {
 	c.NotDecided("round-trip equality for all values (functional statement)")
 	rangeRule(c, "C18.R1", pkgFuncs(P, true, "certs", "common", "userauth", "codex", "portforwarding", "tubes", "authgrants", "transport", "keys"), narrowingObs,
 		"a length is narrowed to its wire width without a bound that holds at the conversion: an over-long value is truncated / mis-framed instead of rejected", "length-prefix narrowing conversions", 10)
+	c.Rule("C18.R6", "no wrap in a bound test's operand: an addition, constant multiplication or constant shift computed in an 8- or 16-bit unsigned type on a value read from the wire or derived from a length, and compared afterwards, is provably within the type's range at that point (E3 on the E2 engine); no such construct on the pinned tree, the rule's mutants are its positive control")
+	c.Decides("that a decoder's or encoder's bound test cannot be defeated by its own operands wrapping (a label length of 253..255 passing `n+3 > size` in byte arithmetic)")
+	rangeRule(c, "C18.R6", pkgFuncs(P, true, "certs", "common", "userauth", "codex", "portforwarding", "tubes", "authgrants", "transport", "keys"), narrowArithObs,
+		"arithmetic on a wire-derived length is carried out in a narrow unsigned type and may wrap: the bound test it feeds accepts values it was written to reject", "narrow-arithmetic sites feeding a comparison", 0)
+	c.NotDecided("wrap in subtractions and in sums that feed a slice expression (run-time bounds check; C10)")
 	c18Layout(c)
 	c18FullReads(c)
 	c18Consume(c)
